@@ -27,12 +27,39 @@ pub enum Ev14 {
 }
 
 #[derive(Clone, Debug, Serialize, Deserialize)]
-pub struct Case14 {
+pub struct Case14Hb {
     pub threshold: u8,
     pub pool: Vec<crate::chain::ScriptSpec>,
     pub api: bool,
     pub sync: bool,
     pub evs: Vec<Ev14>,
+}
+
+/// Direct driver on regtest with per-block difficulties (heavier-shorter branches), announced
+/// headers inserted through `state::insert_next_block_headers`.
+#[derive(Clone, Debug, Serialize, Deserialize)]
+pub enum EvD {
+    Op(crate::hist::Op),
+    /// Mine `n` chained blocks on the selected block and announce their headers only.
+    Announce { parent: crate::hist::ParentSel, n: u8 },
+    /// Deliver the block of an announced header whose parent is in the tree.
+    Deliver(u16, u8),
+    SetFlags { api: Option<bool>, sync: Option<bool> },
+}
+
+#[derive(Clone, Debug, Serialize, Deserialize)]
+pub struct Direct14 {
+    pub threshold: u8,
+    pub diff_mode: crate::hist::DiffMode,
+    pub api: bool,
+    pub sync: bool,
+    pub evs: Vec<EvD>,
+}
+
+#[derive(Clone, Debug, Serialize, Deserialize)]
+pub enum Case14 {
+    Hb(Case14Hb),
+    Direct(Direct14),
 }
 
 fn spelling(k: u8) -> (NetworkInRequest, Net) {
@@ -64,10 +91,10 @@ struct Stats {
     announced_on_fork: bool,
 }
 
-fn probe(hw: &HbWorld, api: bool, sync: bool, k: u8, addr: &str, out: &mut Outcome, ctx: &str, st: &mut Stats) {
+#[allow(clippy::too_many_arguments)]
+fn probe(world: &crate::hist::World, max_ann: Option<u32>, api: bool, sync: bool, k: u8, addr: &str, out: &mut Outcome, ctx: &str, st: &mut Stats) {
     let (nr, names) = spelling(k);
-    let best_h = hw.w.model.blocks[hw.w.model.best_tip()].height;
-    let max_ann = hw.max_announced_height();
+    let best_h = world.model.blocks[world.model.best_tip()].height;
     let not_synced = sync && max_ann.map(|m| m > best_h + 2).unwrap_or(false);
     let base_refuse = !api || names != Net::Regtest;
     // cross-check the model of announced headers against the hook (diagnostic for the harness)
@@ -145,6 +172,118 @@ fn probe(hw: &HbWorld, api: bool, sync: bool, k: u8, addr: &str, out: &mut Outco
     }
 }
 
+fn run_direct(case: &Direct14) -> Outcome {
+    use crate::hist::{Cfg, StepInfo, World};
+    let mut out = Outcome::default();
+    let cfg = Cfg { net: Net::Regtest, threshold: case.threshold, pool: vec![crate::chain::ScriptSpec::P2pkh(0), crate::chain::ScriptSpec::P2wpkh(1)], diff_mode: case.diff_mode, validated: true };
+    let mut sc = SutConfig::new(cfg.net, cfg.threshold as u32);
+    sc.api_access = if case.api { Flag::Enabled } else { Flag::Disabled };
+    sc.sync_gate = if case.sync { Flag::Enabled } else { Flag::Disabled };
+    let mut w = World::new_with(&cfg, sc);
+    let (mut api, mut sync) = (case.api, case.sync);
+    let addr = w.distinct_addresses()[0].clone();
+    let mut st = Stats { refused_sync: 0, announced_on_fork: false };
+    // model of the announced headers: hash -> (height, model block id)
+    let mut announced: std::collections::BTreeMap<crate::model::H32, (u32, usize)> = Default::default();
+    out.class("direct_driver_case");
+    for (i, ev) in case.evs.iter().enumerate() {
+        let ctx = format!("event {i}");
+        let anchor_before = w.model.anchor_height();
+        match ev {
+            EvD::Op(op) => {
+                let info = w.apply(i, op);
+                if step_errors(&info, &mut out) {
+                    return out;
+                }
+            }
+            EvD::SetFlags { api: a, sync: s } => {
+                can::set_config(SetConfigRequest {
+                    api_access: a.map(|b| if b { Flag::Enabled } else { Flag::Disabled }),
+                    disable_api_if_not_fully_synced: s.map(|b| if b { Flag::Enabled } else { Flag::Disabled }),
+                    ..Default::default()
+                });
+                if let Some(a) = a {
+                    api = *a;
+                }
+                if let Some(s) = s {
+                    sync = *s;
+                }
+            }
+            EvD::Announce { parent, n } => {
+                let mut p = w.resolve_parent(*parent);
+                let mut blobs = vec![];
+                let mut ids = vec![];
+                for _ in 0..*n {
+                    let (id, _, _) = w.mine_detached(p, &[(0, 1)], &[], None, 30);
+                    blobs.push(crate::hb::header_blob(&crate::chain::serialize_header(&w.model.blocks[id].block.header)));
+                    ids.push(id);
+                    p = id;
+                }
+                if let Err(e) = sut::guarded(|| can::with_state_mut(|s| can::state::insert_next_block_headers(s, &blobs))) {
+                    out.fail(format!("{ctx}: inserting announced headers trapped: {e}"));
+                    return out;
+                }
+                // all headers are valid and connected (to the tree, or to the one before)
+                for id in ids {
+                    let b = &w.model.blocks[id];
+                    announced.insert(b.hash, (b.height, id));
+                }
+            }
+            EvD::Deliver(sel, diff) => {
+                let cands: Vec<usize> = announced.values().map(|(_, id)| *id).filter(|id| w.model.blocks[*id].parent.map(|p| w.model.live.contains(&p)).unwrap_or(false)).collect();
+                if !cands.is_empty() {
+                    let id = cands[crate::hist::pick(*sel, cands.len())];
+                    let d = match case.diff_mode {
+                        crate::hist::DiffMode::One => 1,
+                        crate::hist::DiffMode::Const(c) => c as u128,
+                        _ => 1 + (*diff % 20) as u128,
+                    };
+                    let block = w.model.blocks[id].block.clone();
+                    if let Err(e) = w.push_to_sut(&block, d) {
+                        out.fail(format!("{ctx}: {e}"));
+                        return out;
+                    }
+                    w.model.blocks[id].diff = d;
+                    w.model.admit(id);
+                    announced.remove(&w.model.blocks[id].hash);
+                    let mut info = StepInfo { op_index: i, live_set_matches: true, ..Default::default() };
+                    w.settle(&mut info, &mut |_, _| {});
+                    if step_errors(&info, &mut out) {
+                        return out;
+                    }
+                    out.class("announced_block_delivered");
+                }
+            }
+        }
+        if w.model.anchor_height() != anchor_before {
+            let sh = w.model.anchor_height();
+            announced.retain(|_, (h, _)| *h > sh);
+        }
+        let max_ann = announced.values().map(|(h, _)| *h).max();
+        for k in [(i % 2) as u8, 2 + (i % 4) as u8] {
+            probe(&w, max_ann, api, sync, k, &addr, &mut out, &ctx, &mut st);
+        }
+        // classification: the best chain (by difficulty) is not the longest
+        let best = w.model.best_chain();
+        let longest = w.model.leaf_paths(w.model.anchor).iter().map(|p| p.len()).max().unwrap();
+        if best.len() < longest && max_ann.is_some() {
+            out.class("gate_state_best_chain_not_longest");
+            if sync {
+                let best_h = w.model.blocks[*best.last().unwrap()].height;
+                let longest_h = w.model.anchor_height() + longest as u32 - 1;
+                if max_ann.map(|m| m > best_h + 2 && m <= longest_h + 2).unwrap_or(false) {
+                    out.class("gate_decided_by_difficulty_not_length");
+                    out.nontrivial(fnv(format!("d-{api}-{sync}-{best_h}-{longest_h}-{:?}", max_ann).as_bytes()));
+                }
+            }
+        }
+    }
+    if st.refused_sync > 0 {
+        out.class_n("refused_by_sync_rule", st.refused_sync);
+    }
+    out
+}
+
 impl Property for C14 {
     type Case = Case14;
     fn id(&self) -> &'static str {
@@ -163,15 +302,29 @@ impl Property for C14 {
             1 => Just(Ev14::Upgrade),
             4 => (0u8..6).prop_map(Ev14::Probe),
         ];
-        (
+        let hb = (
             prop_oneof![3 => 1u8..=2, 3 => 3u8..=6],
             crate::hist::pool_strategy(),
             prop_oneof![5 => Just(true), 1 => Just(false)],
             prop_oneof![3 => Just(true), 1 => Just(false)],
             prop::collection::vec(ev, 1..=n),
         )
-            .prop_map(|(threshold, pool, api, sync, evs)| Case14 { threshold, pool, api, sync, evs })
-            .boxed()
+            .prop_map(|(threshold, pool, api, sync, evs)| Case14::Hb(Case14Hb { threshold, pool, api, sync, evs }));
+        let evd = prop_oneof![
+            10 => crate::hist::op_strategy(1, true, true, false).prop_map(EvD::Op),
+            5 => (crate::hist::parent_strategy(), 1u8..5).prop_map(|(parent, n)| EvD::Announce { parent, n }),
+            3 => (any::<u16>(), any::<u8>()).prop_map(|(a, b)| EvD::Deliver(a, b)),
+            1 => (prop_oneof![3 => Just(None), 1 => any::<bool>().prop_map(Some)], prop_oneof![2 => Just(None), 1 => any::<bool>().prop_map(Some)]).prop_map(|(api, sync)| EvD::SetFlags { api, sync }),
+        ];
+        let direct = (
+            prop_oneof![2 => 1u8..=2, 4 => 3u8..=8],
+            crate::hist::diff_mode_strategy(),
+            prop_oneof![6 => Just(true), 1 => Just(false)],
+            prop_oneof![5 => Just(true), 1 => Just(false)],
+            prop::collection::vec(evd, 1..=n),
+        )
+            .prop_map(|(threshold, diff_mode, api, sync, evs)| Case14::Direct(Direct14 { threshold, diff_mode, api, sync, evs }));
+        prop_oneof![3 => hb, 2 => direct].boxed()
     }
     fn cases(&self, tier: Tier) -> u32 {
         match tier {
@@ -180,7 +333,7 @@ impl Property for C14 {
         }
     }
     fn rule(&self) -> String {
-        "Heartbeat-driver scenarios on regtest where the block source delivers 1..2 blocks per reply and announces 0..6 further headers (on the best chain and on forks; stale after a fork loses; removed when their block arrives or the stable height reaches them), with api_access and disable_api_if_not_fully_synced switched by set_config events and upgrades in between. After every heartbeat and at probe events every endpoint (get_utxos, get_utxos_query, get_balance, get_balance_query, get_block_headers, get_current_fee_percentiles, send_transaction) is called with the canister's network in two spellings and with the four foreign spellings. Oracle: refuse <=> api disabled, or another network named, or (sync flag on and the highest announced header, from an independent model of announced headers, is more than 2 above the best-chain height) with send_transaction exempt from the last clause; a refusal is a trap with no change of state, no cycles accepted and nothing forwarded; otherwise a well-formed request is answered; get_config and get_blockchain_info always answer. Non-trivial: a probe in a state where the sync flag is on and an announced header is exactly 2 or 3 above the best height or on a non-best fork; distinct = (flags, best height, announced heights) hashes.".into()
+        "Heartbeat-driver scenarios on regtest where the block source delivers 1..2 blocks per reply and announces 0..6 further headers (on the best chain and on forks; stale after a fork loses; removed when their block arrives or the stable height reaches them), with api_access and disable_api_if_not_fully_synced switched by set_config events and upgrades in between. After every heartbeat and at probe events every endpoint (get_utxos, get_utxos_query, get_balance, get_balance_query, get_block_headers, get_current_fee_percentiles, send_transaction) is called with the canister's network in two spellings and with the four foreign spellings. Oracle: refuse <=> api disabled, or another network named, or (sync flag on and the highest announced header, from an independent model of announced headers, is more than 2 above the best-chain height) with send_transaction exempt from the last clause; a refusal is a trap with no change of state, no cycles accepted and nothing forwarded; otherwise a well-formed request is answered; get_config and get_blockchain_info always answer. Two in five cases use the direct driver on regtest with per-block difficulties (heavier-but-shorter best chains), headers announced through insert_next_block_headers on any block of the tree and later delivered or left stale. Non-trivial: a probe in a state where the sync flag is on and an announced header is exactly 2 or 3 above the best height or on a non-best fork; distinct = (flags, best height, announced heights) hashes.".into()
     }
     fn assumptions(&self) -> Vec<String> {
         vec![
@@ -189,12 +342,16 @@ impl Property for C14 {
         ]
     }
     fn required_classes(&self, _tier: Tier) -> Vec<&'static str> {
-        vec!["not_synced_state", "announced_exactly_2_ahead", "announced_exactly_3_ahead", "send_transaction_exempt_from_sync_rule", "api_disabled_probe", "foreign_network_probe", "refused_by_sync_rule", "announced_on_losing_fork"]
+        vec!["not_synced_state", "announced_exactly_2_ahead", "announced_exactly_3_ahead", "send_transaction_exempt_from_sync_rule", "api_disabled_probe", "foreign_network_probe", "refused_by_sync_rule", "announced_on_losing_fork", "direct_driver_case", "gate_decided_by_difficulty_not_length", "announced_block_delivered"]
     }
     fn max_shrink_iters(&self) -> u32 {
         400
     }
     fn run(&self, case: &Case14) -> Outcome {
+        let case = match case {
+            Case14::Hb(c) => c,
+            Case14::Direct(d) => return run_direct(d),
+        };
         let mut out = Outcome::default();
         let cfg = hb_cfg(case.threshold, case.pool.clone());
         let mut sc = SutConfig::new(cfg.net, cfg.threshold as u32);
@@ -252,7 +409,7 @@ impl Property for C14 {
                         if k % 6 >= 2 {
                             out.class("foreign_network_probe");
                         }
-                        probe(&hw, api, sync, k, &addr, &mut out, &ctx, &mut st);
+                        probe(&hw.w, hw.max_announced_height(), api, sync, k, &addr, &mut out, &ctx, &mut st);
                     }
                     // classification: an announced header on a fork that is not the best chain
                     let best = hw.w.model.best_chain();
